@@ -523,10 +523,10 @@ def run_case(desc):
 
 
 # ----------------------------------------------------------------------------- the check-independent co-simulation
-def gen_cyc_cases(tier, rng):
+def gen_cyc_cases(tier, rng, profiles=("c07", "c08", "c10")):
     n, transfers = {"quick": (16, 14), "widen": (48, 20)}.get(tier, (160, 24))
     return [{"mode": "cyc", "seed": rng.u64(), "transfers": transfers, "wild": rng.choice([0, 10, 10, 30]),
-             "profile": rng.choice(["c07", "c08", "c10"]), "k": k} for k in range(n)]
+             "profile": rng.choice(list(profiles)), "k": k} for k in range(n)]
 
 
 def _fmt(r):
@@ -575,7 +575,7 @@ def _work(descs):
     return out
 
 
-def extra_checks(tier, rng, proof, nproc=4):
+def extra_checks(tier, rng, proof, nproc=4, profiles=("c07", "c08", "c10")):
     """Hook of framework.main: builds the cycle-level driver, runs the standalone co-simulation, returns evidence.
     A model/gateware disagreement is a broken correspondence (recorded in proof['broken']), a monitor failure on the
     real trace is a failure with the case as replay."""
@@ -583,7 +583,7 @@ def extra_checks(tier, rng, proof, nproc=4):
     if not ok:
         proof["broken"].append({"what": "lake build of the cycle-level driver failed", "detail": log[-2000:]})
         return {"cycle_level": {"built": False}}
-    descs = gen_cyc_cases(tier, rng)
+    descs = gen_cyc_cases(tier, rng, profiles)
     buckets = [b for b in (descs[i::nproc] for i in range(nproc)) if b]
     if len(buckets) == 1:
         parts = [_work(buckets[0])]
